@@ -6,7 +6,9 @@ M1/M2: Api.tla (TLC): every entry point x argument class is enabled in every sta
 M3: Trace_Api.tla: every call answers Ok or Err within the time bound (a panic, abort, stack overflow or hang is the violation);
     Trace_Memo.tla: after the behaviour, a valid expression yields exactly what a fresh session yields under the same preferences."""
 import json
+import os
 import random
+import re
 import time
 
 import common as C
@@ -106,6 +108,50 @@ def concretise(call, rng):
     raise ValueError(name)
 
 
+STRESS = ("<math><mfrac><mn>1</mn><mn>1234567890123456789012345</mn></mfrac><mo>+</mo><mn>1</mn><mo>,</mo><mn>234</mn><mo>.</mo><mn>5</mn><mo>+</mo>"
+          "<mfrac><mrow><mi>X</mi><mo>+</mo><mfrac><mrow><mi>a</mi><mo>+</mo><mn>1</mn></mrow><mrow><mi>b</mi><mo>-</mo><mn>1</mn></mrow></mfrac></mrow><msqrt><mi>Y</mi><mo>-</mo><mn>2</mn></msqrt></mfrac>"
+          "<mo>=</mo><msup><mi>e</mi><mrow><mo>-</mo><mn>3.1415926535897932384626433</mn></mrow></msup><mo>+</mo><mrow/><mo>+</mo><mn>12 345 678</mn><mi>km</mi></math>")
+HOSTILE = ["", " ", "-1", "1e-30", "1e30", "NaN", "[", "x" * 300]
+NUMERIC_PREFS = ("Rate", "Pitch", "Volume", "MathRate", "PauseFactor", "CapitalLetters_Pitch")
+
+
+def stress_values():
+    """preference name -> values: what prefs.yaml documents in the comment behind each entry (nested groups are flattened the way
+    the library does: ClearSpeak: Fractions -> ClearSpeak_Fractions), its current value, the API preferences of prefs.rs, and
+    hostile values."""
+    out = {}
+    group = None
+    for line in open(os.path.join(C.REPO, "Rules", "prefs.yaml"), encoding="utf-8"):
+        m = re.match(r"^( *)([A-Za-z_0-9]+):\s*([^#\n]*?)\s*(?:#\s*(.*))?$", line.rstrip("\n"))
+        if not m:
+            continue
+        indent, key, cur, comment = len(m.group(1)), m.group(2), m.group(3).strip().strip("'\""), m.group(4) or ""
+        if indent <= 2:
+            group = None
+            continue                        # Speech / Navigation / Braille / Other
+        if indent == 4:
+            group = None
+            if cur == "" and not line.split("#")[0].rstrip().endswith('""'):
+                group = key                 # a group such as ClearSpeak: or SpeechOverrides:
+                continue
+        name = f"{group}_{key}" if group and indent > 4 else key
+        vals = [cur] if cur else []
+        for tok in re.split(r"[,/|]| or |--", comment):
+            tok = tok.strip().strip("'\"").split(" ")[0]
+            if tok and len(tok) < 30 and re.match(r"^[A-Za-z0-9_.+-]+$", tok):
+                vals.append(tok)
+        out[name] = list(dict.fromkeys(vals + HOSTILE))
+    src = open(os.path.join(C.REPO, "src", "prefs.rs"), encoding="utf-8").read()
+    for name, kind, default in re.findall(r'prefs\.insert\("([A-Za-z_0-9]+)"\.to_string\(\), Yaml::(\w+)\((?:"([^"]*)"\.to_string\(\)|(?:true|false))', src):
+        samples = {"Real": ["100", "12.5", "0", "400"], "Integer": ["100", "0"], "Boolean": ["true", "false"], "String": ["SSML", "SAPI5", "none"]}.get(kind, [])
+        out.setdefault(name, list(dict.fromkeys(([default] if default else []) + samples + HOSTILE)))
+    for derived in ("BlockSeparators", "DecimalSeparators"):          # computed from Language / DecimalSeparator, but settable
+        out.setdefault(derived, [",", ". ", ".,"] + HOSTILE)
+    if len(out) < 60 or "ClearSpeak_Fractions" not in out or "Rate" not in out:
+        raise C.ToolError(f"prefs.yaml / prefs.rs: only {len(out)} preferences harvested")
+    return out
+
+
 PREF_GRID = [("knownStr:valid", ["SpeechStyle", "Verbosity", "BrailleCode", "TTS", "NavMode", "BrailleNavHighlight", "DecimalSeparator", "CheckRuleFiles"],
               ["SimpleSpeak", "Verbose", "UEB", "SSML", "Character", "All", ",", "None"]),
              ("knownBool:bool", ["Bookmark", "Overview", "AutoZoomOut", "CapitalLetters_Beep"], ["true", "FALSE"]),
@@ -203,6 +249,21 @@ def run(tier):
                         if o["op"] == "set_pref":
                             o["name"], o["value"] = n, v
                     scripts.append(sc)
+    # every preference of prefs.yaml at each of its documented values (harvested from the file's comments) and at hostile ones,
+    # under every engine, followed by a stress expression (numbers with many digits and separators, a huge denominator, nested
+    # fractions with pauses, capitals, an empty row) and every getter: no value of any preference makes a getter crash
+    stress_vals = stress_values()
+    grid2 = [(n, v) for n, vs in sorted(stress_vals.items()) for v in vs]
+    # (the engine rotates; the numeric preferences feed the engines' unit conversions and meet all three)
+    grid2 = [(n, v, e) for gi, (n, v) in enumerate(grid2) for e in (("None", "SSML", "SAPI5") if n in NUMERIC_PREFS else (["None", "SSML", "SAPI5"][gi % 3],))]
+    for gi, (n, v, eng) in enumerate(grid2):
+        sc = build_script([("set_preference", "knownStr:valid")] * 2 + [("set_mathml", "valid"), ("get_spoken_text", "-"), ("get_overview_text", "-"), ("get_braille", "empty"),
+                          ("do_navigate_command", "zoom"), ("do_navigate_command", "read")], [p_ for p_ in PREFIXES if p_[0] == "rules"][0], rng, f"stress:{n}={v}:{eng}")
+        sets = [o for o in sc["ops"] if o["op"] == "set_pref"]
+        sets[0]["name"], sets[0]["value"] = "TTS", eng
+        sets[1]["name"], sets[1]["value"] = n, v
+        [o for o in sc["ops"] if o["op"] == "set_mathml"][0]["mathml"] = STRESS
+        scripts.append(sc)
     # fresh reference sessions for the recovery probe under the default preferences
     scripts.append(build_script([], PREFIXES[0], rng, "fresh"))
     results = C.run_mcv([{"id": s["id"], "ops": s["ops"]} for s in scripts], wd, timeout_ms=20000, stack_mb=8)
